@@ -4,6 +4,8 @@ import Model.Inst
 import Model.ArgNames
 import Spec.Access
 import Generated.C07Access
+import Model.DeclMods
+import Generated.C07Decl
 import Drivers.Common
 /-! `vm_c07`: line protocol over `Model.Access` / `Model.Types` / `Model.Inst` with the regenerated tables.
 
@@ -32,6 +34,10 @@ import Drivers.Common
          slot `<boundary>,<val>,<ty tokens separated by blanks>`
   eargs <H> <item;item;…>                                    → `ok|den:<i> n=<k>`  (Model.Access.evalArgs; items as for `seq`,
          k = how many operands had an effect: calls that ran + cells that changed)
+
+  decl <parser> <kw kw …|->                                  → `refused` | `vis=<pub|prot|priv|none> static=<0|1> readonly=<0|1> final=<0|1> abstract=<0|1>`
+         parser = param | class | anon | trait | enum | interface (Generated.C07Decl.parsers; `shapeChanged` if the translator
+         did not read it completely); kw = public protected private static readonly final abstract var (Model.DeclMods.parse)
 
   H  = `name,ext|-,impl.impl|-;…`     fields of a request are separated by tabs
   W  = `c:name,ext|-,impl|-,abstract 0|1,concrete.m|-,abstr.m|-;…/i:name,ext.ext|-,meths|-;…`
@@ -336,6 +342,29 @@ def showNamedOut (n : Nat) : Model.ArgNames.Outcome → String
 def touched (σ₀ σ : Store) (keys : List Name) : Nat :=
   (keys.filter (fun k => σ.cell k != σ₀.cell k)).length + (keys.map (fun k => σ.calls k - σ₀.calls k)).foldl (· + ·) 0
 
+def parseKw : String → Option Model.DeclMods.Kw
+  | "public" => some (.vis .pub) | "protected" => some (.vis .prot) | "private" => some (.vis .priv)
+  | "static" => some (.flag .static) | "readonly" => some (.flag .readonly) | "final" => some (.flag .final)
+  | "abstract" => some (.flag .abstract) | "var" => some .var | _ => none
+
+def showMods (m : Model.DeclMods.Mods) : String :=
+  let b := fun (x : Bool) => if x then "1" else "0"
+  let v := match m.vis with | none => "none" | some .pub => "pub" | some .prot => "prot" | some .priv => "priv"
+  s!"vis={v} static={b m.static} readonly={b m.readonly} final={b m.final} abstract={b m.abstract}"
+
+def declAnswer (pname kws : String) : String :=
+  match Generated.C07Decl.parsers.find? (fun p => p.name == pname) with
+  | none => "noparser"
+  | some p =>
+    if !(Generated.C07Decl.recognised.any (fun r => r.1 == pname && r.2)) then "shapeChanged"
+    else
+      match ((kws.splitOn " ").filter (fun x => !x.isEmpty && x != "-")).mapM parseKw with
+      | none => "bad-op"
+      | some ks =>
+        match Model.DeclMods.parse p ks with
+        | none => "refused"
+        | some m => showMods m
+
 def handle (line : String) : String :=
   match line.splitOn "\t" with
   | "acc" :: h :: rest =>
@@ -447,6 +476,8 @@ def handle (line : String) : String :=
       let keys := (steps.map (fun st => match st.op with | .read k => k | .write k _ _ => k | .call k => k)).eraseDups
       (match r.1 with | none => "ok" | some i => s!"den:{i}") ++ s!" n={touched σ₀ r.2 keys}"
     | _, _ => "bad-op"
+  | ["decl", pname, kws] => declAnswer pname kws
+  | ["decl", pname] => declAnswer pname ""
   | ["tbl"] =>
     let arms := Path.all.flatMap (fun p => [Recv.this, Recv.other].map (fun r =>
       s!"{showPath p}/{match r with | .this => "this" | .other => "other"}={showCheck (Generated.C07Access.table p r)}"))
